@@ -499,3 +499,262 @@ theorem passLoop_x (B Nb ip : Nat) (hB : 0 < B) (hip : ip < Nb) :
 end passx
 
 end Amgcl.CPR
+
+namespace Amgcl.CPR
+open Amgcl Finset
+
+section assemble
+variable {K : Type} [Field K] [DecidableEq K]
+
+theorem xrow_length (B r : Nat) (ent : Row (Blk K)) : (xrow B r ent).length = ent.length * B := by
+  induction ent with
+  | nil => simp [xrow]
+  | cons cv t ih => rw [xrow_cons, List.length_append, ih]; simp [Nat.add_mul, Nat.add_comm]
+
+theorem remaining_xrows (B : Nat) (ent : Row (Blk K)) (hB : 0 < B) : ent.length ≤ remaining (xrows B ent) := by
+  unfold remaining xrows
+  rw [List.map_map]
+  have h0 : (0 : Nat) ∈ List.range B := List.mem_range.2 hB
+  have : (List.length ∘ fun r => xrow B r ent) 0 ≤ ((List.range B).map (List.length ∘ fun r => xrow B r ent)).sum :=
+    List.single_le_sum (fun _ _ => Nat.zero_le _) _ (List.mem_map_of_mem h0)
+  have h1 : (List.length ∘ fun r => xrow B r ent) 0 = ent.length * B := xrow_length B 0 ent
+  rw [h1] at this
+  calc ent.length ≤ ent.length * B := Nat.le_mul_of_pos_right _ hB
+    _ ≤ _ := this
+
+/-- the scalar rows of block row `ip` of the expanded matrix -/
+theorem expand_row (B : Nat) (Ab : CRS (Blk K)) (ip r : Nat) (hip : ip < Ab.nrows) (hr : r < B) :
+    (expand B Ab).row (ip * B + r) = xrow B r (Ab.row ip) := by
+  unfold expand CRS.row
+  have hlt : ip * B + r < Ab.nrows * B := by
+    calc ip * B + r < ip * B + B := by omega
+      _ = (ip + 1) * B := by rw [Nat.add_mul, Nat.one_mul]
+      _ ≤ Ab.nrows * B := Nat.mul_le_mul_right _ hip
+  rw [getD_ofFn_lt _ _ _ hlt]
+  have h1 : (ip * B + r) / B = ip := mul_add_div_eq hr
+  have h2 : (ip * B + r) % B = r := by rw [Nat.mul_comm, Nat.mul_add_mod, Nat.mod_eq_of_lt hr]
+  simp only [h1, h2]
+  rfl
+
+theorem blockRows_expand (B : Nat) (Ab : CRS (Blk K)) (ip : Nat) (hip : ip < Ab.nrows) :
+    blockRows (expand B Ab) B ip = xrows B (Ab.row ip) := by
+  unfold blockRows xrows
+  apply List.map_congr_left
+  intro r hr
+  exact expand_row B Ab ip r hip (List.mem_range.1 hr)
+
+theorem split_zero (B : Nat) (ent : Row (Blk K)) (h : K2.StrictCols ent) : Split B 0 [] ent :=
+  { sorted := by simpa using h
+    hpre := fun cv hcv => by cases hcv
+    hent := fun cv _ => Nat.zero_le _ }
+
+/-- first pass of the scalar constructor on block row `ip` of the expanded matrix = the block constructor's weights -/
+theorem passRow_expand (B Nb : Nat) (hB : 0 < B) (Ab : CRS (Blk K)) (hs : Ab.sortedb = true) (ip : Nat)
+    (hipn : ip < Ab.nrows) (hip : ip < Nb) :
+    ((passRow (expand B Ab) B (Nb * B) ip true).w, (passRow (expand B Ab) B (Nb * B) ip true).zeroPivot)
+      = match (Ab.row ip).find? (fun cv => cv.1 = ip) with
+        | none => (none, false)
+        | some cv => match invert B (blkT B cv.2) with
+          | none => (none, true)
+          | some y => (some y, false) := by
+  have hsorted : K2.StrictCols (Ab.row ip) := (K2.sortedb_iff.1 hs) ip
+  unfold passRow
+  simp only
+  rw [blockRows_expand B Ab ip hipn]
+  have := passLoop_x B Nb ip hB hip (Ab.row ip) [] 0 (remaining (xrows B (Ab.row ip)) + 1) 0
+    (split_zero B _ hsorted) (by have := remaining_xrows B (Ab.row ip) hB; omega)
+  simp only [List.nil_append, map_geC_zero] at this
+  exact this
+
+/-- the weights / flags of `blockWeights` in terms of the same match -/
+theorem blockWeights_eq (Ab : CRS (Blk K)) (B ip : Nat) :
+    blockWeights Ab B ip = match (Ab.row ip).find? (fun cv => cv.1 = ip) with
+      | none => (Array.replicate B 0, true, false)
+      | some cv => match invert B (blkT B cv.2) with
+        | none => (Array.replicate B 0, false, true)
+        | some y => (y, false, false) := rfl
+
+theorem weights_expand (B Nb : Nat) (hB : 0 < B) (Ab : CRS (Blk K)) (hs : Ab.sortedb = true) (ip : Nat)
+    (hipn : ip < Ab.nrows) (hip : ip < Nb) :
+    weights B (passRow (expand B Ab) B (Nb * B) ip true) = (blockWeights Ab B ip).1 ∧
+    ((passRow (expand B Ab) B (Nb * B) ip true).w.isNone && !(passRow (expand B Ab) B (Nb * B) ip true).zeroPivot)
+      = (blockWeights Ab B ip).2.1 ∧
+    (passRow (expand B Ab) B (Nb * B) ip true).zeroPivot = (blockWeights Ab B ip).2.2 := by
+  have h := passRow_expand B Nb hB Ab hs ip hipn hip
+  rw [blockWeights_eq]
+  unfold weights
+  cases hf : (Ab.row ip).find? (fun cv => decide (cv.1 = ip)) with
+  | none =>
+    rw [hf] at h
+    simp only [Prod.mk.injEq] at h
+    simp [h.1, h.2]
+  | some cv =>
+    rw [hf] at h
+    simp only at h ⊢
+    cases hi : invert B (blkT B cv.2) with
+    | none =>
+      rw [hi] at h
+      simp only [Prod.mk.injEq] at h
+      simp [h.1, h.2]
+    | some y =>
+      rw [hi] at h
+      simp only [Prod.mk.injEq] at h
+      simp [h.1, h.2]
+
+/-- second pass of the scalar constructor on block row `ip` of the expanded matrix = the block constructor's row -/
+theorem appRow_expand (B Nb : Nat) (hB : 0 < B) (Ab : CRS (Blk K)) (hs : Ab.sortedb = true) (ip : Nat)
+    (hipn : ip < Ab.nrows) (d : Array K) :
+    appRow (expand B Ab) B (Nb * B) ip d
+      = ((Ab.row ip).filter (fun cv => decide (cv.1 < Nb))).map (fun cv =>
+          (cv.1, (List.range B).foldl (fun a k => a + d.getD k 0 * cv.2.getD (k * B) 0) 0)) := by
+  have hsorted : K2.StrictCols (Ab.row ip) := (K2.sortedb_iff.1 hs) ip
+  unfold appRow
+  simp only
+  rw [blockRows_expand B Ab ip hipn]
+  have := appLoop_x B Nb hB d (Ab.row ip) [] 0 (remaining (xrows B (Ab.row ip)) + 1) []
+    (split_zero B _ hsorted) (by have := remaining_xrows B (Ab.row ip) hB; omega)
+  simp only [List.nil_append, map_geC_zero] at this
+  rw [this]
+  rfl
+
+theorem spmvAddInto_rows (A A' : CRS K) (x y : Vec K) (h : ∀ i, A.row i = A'.row i) :
+    spmvAddInto A x y = spmvAddInto A' x y := by
+  have key : ∀ (M : CRS K), spmvAddInto M x y
+      = Array.ofFn (n := y.size) (fun i => rowDot (M.row i.val) x + y.getD i.val 0) := by
+    intro M
+    unfold spmvAddInto
+    congr 1
+    funext i
+    by_cases hi : i.val < M.nrows
+    · rw [if_pos hi]
+    · rw [if_neg hi, CRS.row_ge M i.val (by omega)]
+      simp [rowDot]
+  rw [key A, key A']
+  congr 1
+  funext i
+  rw [h]
+
+end assemble
+
+end Amgcl.CPR
+
+namespace Amgcl.CPR
+open Amgcl Finset
+
+section final
+variable {K : Type} [Field K] [DecidableEq K]
+
+theorem scatterOf_row (B nr np i : Nat) :
+    (scatterOf B nr np : CRS K).row i = if i < nr ∧ (i % B = 0 ∧ i / B < np) then [(i / B, (1 : K))] else [] := by
+  unfold scatterOf CRS.row
+  rw [getD_ofFn]
+  by_cases h : i < nr
+  · rw [dif_pos h]
+    by_cases h2 : i % B = 0 ∧ i / B < np
+    · rw [if_pos h2, if_pos ⟨h, h2⟩]
+    · rw [if_neg h2, if_neg (fun hh => h2 hh.2)]
+  · rw [dif_neg h, if_neg (fun hh => h hh.1)]
+
+theorem ofFn_congr' {α : Type} {a b : Nat} (h : a = b) (f : Fin a → α) (g : Fin b → α)
+    (hfg : ∀ i (ha : i < a) (hb : i < b), f ⟨i, ha⟩ = g ⟨i, hb⟩) : Array.ofFn f = Array.ofFn g := by
+  subst h
+  congr 1
+  funext i
+  exact hfg i.val i.isLt i.isLt
+
+theorem crs_ext {α : Type} {A A' : CRS α} (h1 : A.ncols = A'.ncols) (h2 : A.rows = A'.rows) : A = A' := by
+  cases A; cases A'; simp_all
+
+theorem expand_nrows (B : Nat) (Ab : CRS (Blk K)) : (expand B Ab).nrows = Ab.nrows * B := by
+  simp [expand, CRS.nrows]
+
+theorem any_range_congr (n : Nat) (f g : Nat → Bool) (h : ∀ i, i < n → f i = g i) :
+    (List.range n).any f = (List.range n).any g := by
+  induction n with
+  | zero => rfl
+  | succ k ih =>
+    rw [List.range_succ, List.any_append, List.any_append, ih (fun i hi => h i (by omega))]
+    simp [h k (Nat.lt_succ_self k)]
+
+/-- **scalar input with `block_size = B` and `B × B` block input give the same object and the same action** -/
+theorem initScalar_expand (Ab : CRS (Blk K)) (hs : Ab.sortedb = true) (B act : Nat) (hB : 0 < B)
+    (hact : act ≤ Ab.nrows) :
+    (initScalar (expand B Ab) B (act * B)).np = (initBlock Ab B act).np ∧
+    (initScalar (expand B Ab) B (act * B)).Fpp = (initBlock Ab B act).Fpp ∧
+    (initScalar (expand B Ab) B (act * B)).App = (initBlock Ab B act).App ∧
+    (initScalar (expand B Ab) B (act * B)).AS = (initBlock Ab B act).AS ∧
+    (initScalar (expand B Ab) B (act * B)).uninit = (initBlock Ab B act).uninit ∧
+    (initScalar (expand B Ab) B (act * B)).zeroPivot = (initBlock Ab B act).zeroPivot ∧
+    (∀ i, (initScalar (expand B Ab) B (act * B)).Scatter.row i = (initBlock Ab B act).Scatter.row i) ∧
+    ∀ (mkS : CRS K → Vec K → Vec K) (Pf : Vec K → Vec K) (f : Vec K),
+      (initScalar (expand B Ab) B (act * B)).apply mkS Pf f = (initBlock Ab B act).apply mkS Pf f := by
+  set Nb := if act = 0 then Ab.nrows else act with hNb
+  have hNbn : Nb ≤ Ab.nrows := by rw [hNb]; split <;> omega
+  have hNs : (if act * B = 0 then (expand B Ab).nrows else act * B) = Nb * B := by
+    rw [expand_nrows, hNb]
+    by_cases ha : act = 0
+    · simp [ha]
+    · have : act * B ≠ 0 := Nat.mul_ne_zero ha (by omega)
+      simp [ha, this]
+  have hq : Nb * B / B = Nb := Nat.mul_div_cancel _ hB
+  have hnp : (initScalar (expand B Ab) B (act * B)).np = (initBlock Ab B act).np := by
+    show (if act * B = 0 then (expand B Ab).nrows else act * B) / B = (if act = 0 then Ab.nrows else act)
+    rw [hNs, hq]
+  have hFpp : (initScalar (expand B Ab) B (act * B)).Fpp = (initBlock Ab B act).Fpp := by
+    unfold initScalar initBlock fppOf
+    simp only
+    apply crs_ext
+    · show (if act * B = 0 then (expand B Ab).nrows else act * B) = (if act = 0 then Ab.nrows else act) * B
+      rw [hNs]
+    · apply ofFn_congr' (by rw [hNs, hq])
+      intro ip ha hb
+      simp only [hNs]
+      apply List.map_congr_left
+      intro i _
+      have hb' : ip < Nb := hb
+      rw [(weights_expand B Nb hB Ab hs ip (by omega) hb').1]
+  have hApp : (initScalar (expand B Ab) B (act * B)).App = (initBlock Ab B act).App := by
+    unfold initScalar initBlock
+    simp only
+    apply crs_ext
+    · show (if act * B = 0 then (expand B Ab).nrows else act * B) / B = (if act = 0 then Ab.nrows else act)
+      rw [hNs, hq]
+    · apply ofFn_congr' (by rw [hNs, hq])
+      intro ip ha hb
+      simp only [hNs]
+      have hb' : ip < Nb := hb
+      rw [appRow_expand B Nb hB Ab hs ip (by omega), (weights_expand B Nb hB Ab hs ip (by omega) hb').1]
+  have hun : (initScalar (expand B Ab) B (act * B)).uninit = (initBlock Ab B act).uninit := by
+    unfold initScalar initBlock
+    simp only [hNs, hq]
+    apply any_range_congr
+    intro ip hip
+    exact (weights_expand B Nb hB Ab hs ip (by omega) hip).2.1
+  have hzp : (initScalar (expand B Ab) B (act * B)).zeroPivot = (initBlock Ab B act).zeroPivot := by
+    unfold initScalar initBlock
+    simp only [hNs, hq]
+    apply any_range_congr
+    intro ip hip
+    exact (weights_expand B Nb hB Ab hs ip (by omega) hip).2.2
+  have hSc : ∀ i, (initScalar (expand B Ab) B (act * B)).Scatter.row i = (initBlock Ab B act).Scatter.row i := by
+    intro i
+    show (scatterOf B (expand B Ab).nrows ((if act * B = 0 then (expand B Ab).nrows else act * B) / B) : CRS K).row i
+      = (scatterOf B ((if act = 0 then Ab.nrows else act) * B) (if act = 0 then Ab.nrows else act) : CRS K).row i
+    rw [scatterOf_row, scatterOf_row, hNs, hq, expand_nrows]
+    have hle : Nb * B ≤ Ab.nrows * B := Nat.mul_le_mul_right _ hNbn
+    by_cases h3 : i % B = 0 ∧ i / B < Nb
+    · have : i < Nb * B := (Nat.div_lt_iff_lt_mul hB).1 h3.2
+      have h4 : i < Ab.nrows * B := by omega
+      rw [if_pos ⟨h4, h3⟩, if_pos ⟨this, h3⟩]
+    · rw [if_neg (fun h => h3 h.2), if_neg (fun h => h3 h.2)]
+  refine ⟨hnp, hFpp, hApp, rfl, hun, hzp, hSc, ?_⟩
+  intro mkS Pf f
+  unfold State.apply
+  simp only
+  have hAS : (initScalar (expand B Ab) B (act * B)).AS = (initBlock Ab B act).AS := rfl
+  rw [hFpp, hnp, hAS]
+  exact spmvAddInto_rows _ _ _ _ hSc
+
+end final
+
+end Amgcl.CPR
